@@ -102,26 +102,29 @@ class Frame(object):
             # Need to address this and come up with a meaningful header
             self.header = None
             
-            self.df = unit_utils.get_value(abs(df), u.Hz)
-            self.dt = unit_utils.get_value(dt, u.s)
-            self.fch1 = unit_utils.get_value(fch1, u.Hz)
+            # Plain Python floats / ints: numpy scalars of other widths (float32, int32, uint8...) would 
+            # make the axes, the derived quantities and later arithmetic single precision or wrap around
+            self.df = float(unit_utils.get_value(abs(df), u.Hz))
+            self.dt = float(unit_utils.get_value(dt, u.s))
+            self.fch1 = float(unit_utils.get_value(fch1, u.Hz))
             self.ascending = ascending
             
             mjd = kwargs.get('mjd')
             if mjd is not None:
                 self.t_start = Time(mjd, format='mjd').unix
             else:
-                self.t_start = kwargs.get('t_start', time.time())
+                self.t_start = float(kwargs.get('t_start', time.time()))
             self.source_name = kwargs.get('source_name', 'Synthetic')
             
             if 'shape' in kwargs:
-                (self.tchans, self.fchans) = self.shape = kwargs['shape']
+                (self.tchans, self.fchans) = kwargs['shape']
             elif data is not None:
-                (self.tchans, self.fchans) = self.shape = data.shape
+                (self.tchans, self.fchans) = data.shape
             else:
-                self.fchans = int(unit_utils.get_value(fchans, u.pixel))
-                self.tchans = int(unit_utils.get_value(tchans, u.pixel))
-                self.shape = (self.tchans, self.fchans)
+                self.fchans = unit_utils.get_value(fchans, u.pixel)
+                self.tchans = unit_utils.get_value(tchans, u.pixel)
+            self.tchans, self.fchans = int(self.tchans), int(self.fchans)
+            self.shape = (self.tchans, self.fchans)
             
             if data is not None:
                 assert data.shape == self.shape
@@ -1005,7 +1008,11 @@ class Frame(object):
         return intensity * np.sqrt(self.tchans) / self.noise_std
 
     def get_drift_rate(self, start_index, stop_index):
-        return (stop_index - start_index) * self.df / (self.tchans * self.dt)
+        # Subtract as floats: unsigned or narrow numpy integer indices would wrap around
+        index_diff = np.asarray(stop_index, dtype=float) - np.asarray(start_index, dtype=float)
+        if index_diff.ndim == 0:
+            index_diff = float(index_diff)
+        return index_diff * self.df / (self.tchans * self.dt)
 
     def get_info(self):
         return vars(self)
